@@ -804,6 +804,19 @@ pub fn check_govern(c: &CfgCase, st: &mut Stats) -> Result<(), Viol> {
     if got != want {
         return Err(fail("C20.default_user_modes", "default-modes", format!("221 shows +{} but default_user_modes is +{}", got, want)));
     }
+    // the registered mode (+r) belongs to the users of the [[users]] section: a user that is not
+    // listed there cannot give it to itself
+    if !g.default_modes.contains('r') {
+        w.send_line(conn, "MODE tester +r");
+        w.send_line(conn, "MODE tester");
+        w.settle();
+        let ls = w.drain(conn);
+        let refused = ls.iter().any(|l| l.contains(" 481 "));
+        let has_r = ls.iter().any(|l| l.contains(" 221 ") && l.rsplit(' ').next().unwrap_or("").contains('r'));
+        if !refused || has_r {
+            return Err(fail("C20.registered_mode_from_users_section", "plus-r", format!("a user that is not in [[users]] sent MODE +r: {:?}", ls)));
+        }
+    }
     // ADMIN shows exactly the administrative lines the file has (the optional second line and the
     // e-mail address independently of each other), INFO / VERSION name the server
     w.send_line(conn, "ADMIN");
